@@ -10,6 +10,7 @@ use std::collections::BTreeSet;
 
 pub fn run(r: &mut Report) {
     crate::c01::agreement_matrix(r, crate::util::scale(12, 40), "order-independence");
+    crate::c03::multi_alg(r, crate::util::scale(24, 100), "order-independence-multi-algorithm");
     let owner = key(1);
     let ks = [key(2), key(3), key(4), key(5)];
     // threshold 1, four valid authorised links that differ in their products
